@@ -513,7 +513,9 @@ fn gen_packet(r: &mut Rng, valid_hdr: bool) -> Vec<u8> {
 fn corrupt(r: &mut Rng, p: &[u8]) -> Vec<u8> {
     let mut q = p.to_vec();
     if q.is_empty() { return q; }
-    match r.below(6) {
+    match r.below(8) {
+        6 => { let k = 1 + r.below(8) as usize; let t = r.bytes(k); q.extend(t); }   // stray bytes after the packet
+        7 => { if q.len() > 2 { q[2] = r.byte(); } }                                 // byte count corrupted
         0 => { let i = q.len() - 1; q[i] ^= 1 << r.below(8); }                 // PEC bit flip
         1 => { let i = q.len() - 1; q[i] = q[i].wrapping_add(1 + r.below(255) as u8); } // random wrong PEC
         2 => { let i = r.below(q.len() as u64) as usize; q[i] ^= 1 << r.below(8); }     // single bit anywhere
@@ -589,6 +591,22 @@ fn control_grid(full: bool, r: &mut Rng, f: &mut dyn FnMut(&str, Vec<u8>)) {
                 if bad_pec { let i = p.len() - 1; p[i] ^= 1 << r.below(8); }
                 f("grid-hdr", p);
             }
+        }
+    }
+    // the long ones: well-formed packets of every type with total length 250..=259 (byte count up to 0xFF)
+    for ty in [0x00u8, 0x05, 0x06, 0x7E, 0x7F] {
+        for total in 250..=259usize {
+            let src = r.below(128) as u8;
+            let body = if ty == 0 {
+                let rq = r.chance(1, 2);
+                let cmd = if rq { r.pick(&[0u8, 2, 3, 5]) } else { r.pick(&[0u8, 5, 6]) };
+                let d = r.bytes(total - if rq { 12 } else { 13 });
+                ctl_body(rq, false, false, r.below(32) as u8, cmd, if rq { None } else { Some(0) }, &d)
+            } else { r.bytes(total - 10) };
+            let mut p = build_packet(r.below(128) as u8, src, 1, r.byte(), src, 0xC8, ty, &body);
+            f("grid-maxlen", p.clone());
+            let i = p.len() - 1; p[i] ^= 0x10;
+            f("grid-maxlen", p);
         }
     }
     // the short ones: every length 0..13 of a valid packet of every type, PEC refreshed or not
@@ -809,6 +827,24 @@ fn c11(g: &mut Gen) {
             s.op(Op::Process(p, b));
         });
     }
+    // valid packets inside a longer receive buffer (stray bytes after the PEC), and truncated ones
+    let n = g.n(300, 12_000);
+    for _ in 0..n {
+        let cfg = gen_cfg(&mut g.rng);
+        g.case("trailing", &cfg, |s, r| {
+            let p = match r.below(3) {
+                0 => { let cmd = 1 + r.below(6) as u8; answerable_request(s.nvend, cmd, r.below(128) as u8, r.below(32) as u8, r) }
+                1 => encoder_packet(s, r).unwrap_or_else(|| gen_packet(r, true)),
+                _ => gen_packet(r, true),
+            };
+            let mut q = p.clone();
+            if r.chance(3, 4) { let k = 1 + r.below(9) as usize; let t = if r.chance(1, 3) { vec![0u8; k] } else { r.bytes(k) }; q.extend(t); }
+            else { let k = r.below(q.len() as u64) as usize; q.truncate(k); }
+            s.op(Op::Decode(q.clone()));
+            let b = pbuf(r, 64, 64);
+            s.op(Op::Process(q, b));
+        });
+    }
 }
 
 // ------------------------------------------------------------------------------------------------ requests
@@ -1018,6 +1054,7 @@ fn c02(g: &mut Gen) {
         for _ in 0..reps {
             let cfg = gen_cfg(&mut g.rng);
             g.case("arm", &cfg, |s, r| {
+                s.twin_on = true;
                 let src = r.below(128) as u8;
                 let body = if ty == 0 {
                     match r.below(3) {
@@ -1037,6 +1074,43 @@ fn c02(g: &mut Gen) {
                 let q = request(7, 0, 2, &[], r); let b = poison(r, 64, 0); s.op(Op::Process(q, b));
             });
         }
+    }
+    // a valid packet followed by stray bytes, and a valid packet with every other value of its byte count:
+    // the PEC of the whole string no longer matches, whatever the byte count says
+    let reps = g.n(60, 2500);
+    for _ in 0..reps {
+        let cfg = gen_cfg(&mut g.rng);
+        g.case("trailing", &cfg, |s, r| {
+            s.twin_on = true;
+            let p = match r.below(3) {
+                0 => request(r.below(128) as u8, 0, 1, &[r.below(2) as u8, 1 + r.below(254) as u8], r),
+                1 => encoder_packet(s, r).unwrap_or_else(|| gen_packet(r, true)),
+                _ => gen_packet(r, true),
+            };
+            let mut q = p.clone();
+            let k = 1 + r.below(6) as usize;
+            let t = if r.chance(1, 4) { vec![0u8; k] } else { r.bytes(k) };
+            q.extend(t);
+            s.op(Op::Decode(q.clone()));
+            let b = pbuf(r, 64, 0); s.op(Op::Process(q, b));
+            let e = request(7, 0, 2, &[], r); let b = pbuf(r, 64, 0); s.op(Op::Process(e, b));
+        });
+    }
+    let reps = g.n(12, 400);
+    for _ in 0..reps {
+        let cfg = gen_cfg(&mut g.rng);
+        g.case("count", &cfg, |s, r| {
+            s.twin_on = true;
+            let p = if r.chance(1, 2) { request(r.below(128) as u8, 0, 1, &[r.below(2) as u8, 1 + r.below(254) as u8], r) } else { gen_packet(r, true) };
+            for c in 0..256u32 {
+                if p.len() > 2 && c as u8 != p[2] {
+                    let mut q = p.clone(); q[2] = c as u8;
+                    s.op(Op::Decode(q.clone()));
+                    if c % 16 == 0 { let b = pbuf(r, 64, 0); s.op(Op::Process(q, b)); }
+                }
+            }
+            let e = request(7, 0, 2, &[], r); let b = pbuf(r, 64, 0); s.op(Op::Process(e, b));
+        });
     }
     // every burst window (start bit x 255 patterns) of valid packets: complete for one packet per encoder in thorough
     let keys = all_keys();
@@ -1066,6 +1140,7 @@ fn c02(g: &mut Gen) {
     for _ in 0..n {
         let cfg = gen_cfg(&mut g.rng);
         g.case("hist", &cfg, |s, r| {
+            s.twin_on = true;
             for _ in 0..(2 + r.below(10)) {
                 if r.chance(1, 2) {
                     let p = request(r.below(128) as u8, 0, 1, &[r.below(2) as u8, 1 + r.below(254) as u8], r);
